@@ -222,10 +222,15 @@ def run(prog, ctx):
                          key="routine:%s" % gname)
             # V4
             cfg = g.cfg
-            erange_edges = [(b, i) for (b, i, s2) in cfg.edges()
-                            if cfg.edge_lit(b, i) is not None and cfg.edge_lit(b, i).kind == "eq" and cfg.edge_lit(b, i).pol
-                            and "__errno_location" in cfg.edge_lit(b, i).atom
-                            and conv.ERANGE in (cfg.edge_lit(b, i).lhs.const_value(), cfg.edge_lit(b, i).rhs.const_value())]
+            def errno_set(lit):
+                if lit is None or "__errno_location" not in lit.atom:
+                    return False
+                if lit.kind == "eq" and lit.pol and conv.ERANGE in (lit.lhs.const_value(), lit.rhs.const_value()):
+                    return True         # errno == ERANGE
+                if lit.kind == "eq" and not lit.pol and 0 in (lit.lhs.const_value(), lit.rhs.const_value()):
+                    return True         # errno != 0
+                return lit.kind == "truth" and lit.pol
+            erange_edges = [(b, i) for (b, i, s2) in cfg.edges() if errno_set(cfg.edge_lit(b, i))]
             if not erange_edges:
                 ctx.ok("V4", "%s: no ERANGE refusal" % gname, g.where, "the getter does not refuse on ERANGE at all (subnormals accepted)")
             for (b, i) in erange_edges:
@@ -241,6 +246,12 @@ def run(prog, ctx):
                             return True
                         if n.k == "FloatingLiteral" and "inf" in str(n.j.get("fval", "")).lower():
                             return True
+                    # result == 0 together with errno: the conversion failed or underflowed to nothing (not a subnormal: those are not 0)
+                    if lit.kind == "eq" and lit.pol and 0 in (lit.lhs.const_value(), lit.rhs.const_value()) and "__errno_location" not in lit.atom \
+                            and not any(n.k == "CallExpr" for n in lit.node.walk()):
+                        return True
+                    if lit.kind == "truth" and not lit.pol and "__errno_location" not in lit.atom and not any(n.k == "CallExpr" for n in lit.node.walk()):
+                        return True         # `x == 0` is normalised to !x
                     return False
                 errs = [r for r in g.returns() if query.returned_constant(r) not in ("ECONF_SUCCESS", 0)]
                 bad = None
